@@ -1417,6 +1417,34 @@ impl Error {
     }
 }
 
+/// Message text as it is handed to any renderer: whatever the formatter returns, with control
+/// characters (C0 other than newline and tab, DEL, C1) replaced by visible stand-ins.
+///
+/// Messages reflect text taken from the input - unknown field and variant names, duplicate keys,
+/// scalars - and YAML escapes (`"\e[31m"`, `"\x9b"`) put arbitrary control characters into them.
+/// The snippet's source lines are sanitised separately; without this the label line, the plain
+/// (no-snippet) rendering and the miette adapter printed those characters raw.
+pub(crate) fn display_message<'a>(
+    formatter: &dyn MessageFormatter,
+    err: &'a Error,
+) -> Cow<'a, str> {
+    let msg = formatter.format_message(err);
+    if crate::de_snipped::is_terminal_snippet_clean(&msg) {
+        return msg;
+    }
+    Cow::Owned(
+        msg.chars()
+            .map(|c| match c {
+                '\n' | '\t' => c,
+                c if (c as u32) < 0x20 => char::from_u32(0x2400 + c as u32).unwrap_or('\u{FFFD}'),
+                '\u{7f}' => '\u{2421}',
+                c if (0x80..=0x9f).contains(&(c as u32)) => '\u{FFFD}',
+                c => c,
+            })
+            .collect(),
+    )
+}
+
 fn fmt_error_plain_with_formatter(
     f: &mut fmt::Formatter<'_>,
     err: &Error,
@@ -1424,7 +1452,7 @@ fn fmt_error_plain_with_formatter(
 ) -> fmt::Result {
     let err = err.without_snippet();
 
-    let msg = formatter.format_message(err);
+    let msg = display_message(formatter, err);
 
     // Validation errors embed per-issue locations in their formatted message (potentially
     // multiple distinct locations). Do not attach a single top-level location suffix here,
@@ -1487,7 +1515,7 @@ fn fmt_error_rendered(
     match err {
         #[cfg(feature = "garde")]
         Error::ValidationErrors { errors } => {
-            let msg = options.formatter.format_message(err);
+            let msg = display_message(options.formatter, err);
             if !msg.is_empty() {
                 writeln!(f, "{}", msg)?;
             }
@@ -1505,7 +1533,7 @@ fn fmt_error_rendered(
 
         #[cfg(feature = "validator")]
         Error::ValidatorErrors { errors } => {
-            let msg = options.formatter.format_message(err);
+            let msg = display_message(options.formatter, err);
             if !msg.is_empty() {
                 writeln!(f, "{}", msg)?;
             }
@@ -1550,7 +1578,7 @@ fn fmt_error_rendered(
             }
             #[cfg(feature = "garde")]
             if let Error::ValidationErrors { errors } = error.as_ref() {
-                let msg = options.formatter.format_message(error);
+                let msg = display_message(options.formatter, error);
                 if !msg.is_empty() {
                     writeln!(f, "{}", msg)?;
                 }
@@ -1585,7 +1613,7 @@ fn fmt_error_rendered(
             }
             #[cfg(feature = "validator")]
             if let Error::ValidatorErrors { errors } = error.as_ref() {
-                let msg = options.formatter.format_message(error);
+                let msg = display_message(options.formatter, error);
                 if !msg.is_empty() {
                     writeln!(f, "{}", msg)?;
                 }
@@ -1630,7 +1658,7 @@ fn fmt_error_rendered(
                     && locs.reference_location != locs.defined_location
             });
 
-            let mut msg = options.formatter.format_message(error);
+            let mut msg = display_message(options.formatter, error);
 
             // Renderer-level de-duplication for AliasError:
             // when we are about to show a secondary “defined here” window, drop the
@@ -1955,7 +1983,7 @@ fn fmt_error_with_snippets_offset(
         );
     }
 
-    let msg = formatter.format_message(err);
+    let msg = display_message(formatter, err);
     let Some(location) = err.location() else {
         return write!(f, "{msg}");
     };
